@@ -7,7 +7,7 @@
 #include "wide.h"
 
 enum { VM_EXIT_NEXT = 1, VM_EXIT_LOOP, VM_EXIT_ERROR, VM_EXIT_END, VM_EXIT_MAKE_CALL, VM_EXIT_APPLY1, VM_EXIT_CHECK_TYPE };
-#define DECL(op) int vm_slice_##op(sexp ctx, sexp self, sexp *stack, sexp_sint_t *top_io, sexp_sint_t fp, unsigned char **ip_io, sexp cp, sexp bc);
+#define DECL(op) int vm_slice_##op(sexp ctx, sexp *self_io, sexp *stack, sexp_sint_t *top_io, sexp_sint_t *fp_io, unsigned char **ip_io, sexp *cp_io, sexp *bc_io, sexp *tmp1_io, sexp_sint_t *i_io);
 KIT_C_BEGIN
 DECL(VECTOR_REF) DECL(VECTOR_SET) DECL(VECTOR_LENGTH) DECL(BYTES_REF) DECL(BYTES_SET) DECL(BYTES_LENGTH) DECL(STRING_REF)
 DECL(STRING_LENGTH) DECL(STRING_CURSOR_NEXT) DECL(STRING_CURSOR_PREV) DECL(STRING_CURSOR_END) DECL(CAR) DECL(CDR) DECL(SET_CAR)
@@ -80,7 +80,8 @@ sexp sexp_remainder(sexp ctx, sexp a, sexp b) { return arith_model('%', a, b); }
 sexp sexp_compare(sexp ctx, sexp a, sexp b) { arith_model('<', a, b); return SEXP_ZERO; }
 KIT_C_END
 #endif
-#define RUN(op) vm_slice_##op(ctx, self, stack, &top, fp, &ip, SEXP_FALSE, SEXP_FALSE)
+static sexp vm_cp = SEXP_FALSE, vm_bc = SEXP_FALSE;
+#define RUN(op) vm_slice_##op(ctx, &self, stack, &top, &fp, &ip, &vm_cp, &vm_bc, NULL, NULL)
 #define ARG1 stack[top0-1]
 #define ARG2 stack[top0-2]
 #define ARG3 stack[top0-3]
